@@ -127,7 +127,7 @@ func (fr *frame) doCall(instr *ssa.Call, c *ssa.CallCommon, fnv Val, args []Val,
 		for _, f := range e.addrTakenWithSig(c.Signature()) {
 			if len(f.FreeVars) == 0 {
 				fr.checkPreOnly(f, c, args, nil, st, reach, pos)
-			} else if fc := e.contractOf(f); fc != nil && len(fc.Requires) > 0 {
+			} else if fc := e.contractOf(f); fc != nil && hasCheckedRequires(fc) {
 				fr.oblig("pre", allProps(fc), pos, "dynamic call may reach closure "+fc.Name+" with preconditions", reach, "false")
 			}
 		}
@@ -555,8 +555,12 @@ func (fr *frame) applyContract(instr *ssa.Call, callee *ssa.Function, c *ssa.Cal
 		ft.assume(reach, fact)
 	}
 	// references mentioned by the postconditions exist in the post-state
-	for _, l := range env.loads {
-		ft.assumeAllocated(st, reach, l)
+	for i, l := range env.loads {
+		if i < len(env.loadEntry) && env.loadEntry[i] {
+			ft.assumeAllocatedAtEntry(reach, l)
+		} else {
+			ft.assumeAllocated(st, reach, l)
+		}
 	}
 	return reach
 }
@@ -945,4 +949,15 @@ func boundTarget(f *ssa.Function) *ssa.Function {
 		}
 	}
 	return nil
+}
+
+// hasCheckedRequires: does the contract carry a precondition callers must
+// establish (hypothesis clauses are entry assumptions, not checked at callers)?
+func hasCheckedRequires(fc *FuncContract) bool {
+	for _, r := range fc.Requires {
+		if !r.Hypothesis {
+			return true
+		}
+	}
+	return false
 }
